@@ -178,6 +178,13 @@ func runC13Case(tier string, seed uint64, idx int, keepDir string) *CaseResult {
 		}
 		defer os.RemoveAll(root)
 	}
+	if kind == "crop_classic_vs_converter_yaml" {
+		if _, err := os.Stat(filepath.Join(verifDir, ".build", "cropfileconverter")); err != nil {
+			res.Status = "skipped"
+			res.Err = "converter binary not built"
+			return res
+		}
+	}
 	runA := runPlain(a, filepath.Join(root, "A"), nil)
 	runB := runPlain(b, filepath.Join(root, "B"), postB)
 	res.Days = runA.Days
